@@ -37,7 +37,7 @@ import (
 // type with optional parts present or absent.
 
 type c18FileOp struct {
-	Kind  int  `json:"kind"`  // 0 write private, 1 write public, 2 operator chmod, 3 replace by symlink, 4 delete
+	Kind  int  `json:"kind"` // 0 write private, 1 write public, 2 operator chmod, 3 replace by symlink, 4 delete
 	Force bool `json:"force"`
 	Mode  int  `json:"mode"`
 	Limit int  `json:"limit,omitempty"` // > 0: the disk refuses to let the file grow beyond Limit-1 bytes during this write (RLIMIT_FSIZE)
@@ -61,7 +61,7 @@ func drawC18(rt *rapid.T) C18Spec {
 	s := C18Spec{LibSeed: rapid.Uint64().Draw(rt, "libseed"), ValSeed: rapid.Uint64().Draw(rt, "valseed")}
 	s.Scenario = rapid.SampledFrom([]int{0, 1, 1, 2, 2, 2, 3, 4}).Draw(rt, "scenario")
 	s.Key = rapid.SampledFrom(append(kernel.KeyNames(1024), kernel.KeyNames(2048)...)).Draw(rt, "key")
-	s.NBases = rapid.IntRange(0, 20).Draw(rt, "nbases")
+	s.NBases = rapid.IntRange(1, 20).Draw(rt, "nbases") // a key has at least the base of the secret key
 	s.WithRev = rapid.Bool().Draw(rt, "withrev")
 	s.Umask = rapid.SampledFrom([]int{0, 0o022, 0o077, 0o027, 0o002}).Draw(rt, "umask")
 	s.Prior = rapid.IntRange(0, 5).Draw(rt, "prior")
@@ -272,6 +272,53 @@ func xmlMutations(doc string) []xmlMut {
 			out = append(out, xmlMut{"basesnum=" + nv, doc[:j] + nv + doc[k:]})
 		}
 	}
+	// whole containers deleted or emptied
+	for _, c := range []string{"Bases", "Elements", "Features"} {
+		if m := regexp.MustCompile(`(?s)\s*<` + c + `( [^>]*)?>.*</` + c + `>`).FindStringIndex(doc); m != nil {
+			out = append(out, xmlMut{"delete-container:" + c, doc[:m[0]] + doc[m[1]:]})
+		}
+	}
+	if m := regexp.MustCompile(`(?s)<Bases num="[0-9]+">.*</Bases>`).FindStringIndex(doc); m != nil {
+		out = append(out, xmlMut{"empty-base-list", doc[:m[0]] + `<Bases num="0"></Bases>` + doc[m[1]:]})
+	}
+	// the numbering of the bases: names exchanged, repeated, out of range, not a base at all
+	ren := func(id, from, to string) {
+		if strings.Contains(doc, "<"+from+">") {
+			t := strings.Replace(doc, "<"+from+">", "<"+to+">", 1)
+			t = strings.Replace(t, "</"+from+">", "</"+to+">", 1)
+			out = append(out, xmlMut{id, t})
+		}
+	}
+	if strings.Contains(doc, "<Base_1>") {
+		t := strings.NewReplacer("<Base_0>", "<Base_1>", "</Base_0>", "</Base_1>", "<Base_1>", "<Base_0>", "</Base_1>", "</Base_0>").Replace(doc)
+		out = append(out, xmlMut{"base-names-exchanged", t})
+		ren("base-number-repeated", "Base_1", "Base_0")
+		ren("base-number-out-of-range", "Base_1", "Base_17")
+		ren("base-number-negative", "Base_1", "Base_-1")
+		ren("base-not-a-base", "Base_1", "Foo")
+	}
+	if strings.Contains(doc, `Epoch length="`) {
+		out = append(out, xmlMut{"negative-epoch-length", strings.Replace(doc, `Epoch length="`, `Epoch length="-`, 1)})
+	}
+	// private key documents: primes that are consistent one by one but not a key
+	subst := func(id string, vals map[string]string) {
+		t := doc
+		for name, v := range vals {
+			re := regexp.MustCompile(`<` + name + `>[^<]*</` + name + `>`)
+			if !re.MatchString(t) {
+				return
+			}
+			t = re.ReplaceAllString(t, "<"+name+">"+v+"</"+name+">")
+		}
+		out = append(out, xmlMut{id, t})
+	}
+	if m := regexp.MustCompile(`<p>([0-9]+)</p>`).FindStringSubmatch(doc); m != nil {
+		if mp := regexp.MustCompile(`<pPrime>([0-9]+)</pPrime>`).FindStringSubmatch(doc); mp != nil {
+			subst("q-equals-p", map[string]string{"q": m[1], "qPrime": mp[1]})
+		}
+		subst("tiny-safe-primes", map[string]string{"p": "7", "pPrime": "3", "q": "11", "qPrime": "5"})
+		subst("short-safe-primes", map[string]string{"p": "1000000000000000007883", "pPrime": "500000000000000003941", "q": "1000000000000000016063", "qPrime": "500000000000000008031"})
+	}
 	return out
 }
 
@@ -320,6 +367,48 @@ func c18BitRot(r *kernel.Run, s C18Spec, sk *gabikeys.PrivateKey, pk *gabikeys.P
 		}
 		if k.Params == nil {
 			r.Violate("C18:unsupported-modulus-accepted", det, "%s: key accepted without system parameters", id)
+		}
+		// the base list of an accepted document: R[i] is what the element named Base_i says, nothing else
+		// counts as a base, and there is at least the base of the secret key
+		if len(k.R) == 0 {
+			r.Violate("C18:key-without-mandatory-element-accepted", det, "%s: public key accepted without any base", id)
+			continue
+		}
+		if k.EpochLength < 0 {
+			r.Violate("C18:negative-number-accepted", det, "%s: epoch length read as %d", id, k.EpochLength)
+		}
+		if !strings.HasPrefix(m.id, "duplicate:") {
+			named := map[int]string{}
+			bad := ""
+			if bm := regexp.MustCompile(`(?s)<Bases num="([^"]*)">(.*)</Bases>`).FindStringSubmatch(m.text); bm != nil {
+				for _, em := range elemRe.FindAllStringSubmatch(bm[2], -1) {
+					var idx int
+					if n, err := fmt.Sscanf(em[1], "Base_%d", &idx); n != 1 || err != nil || idx < 0 || fmt.Sprintf("Base_%d", idx) != em[1] {
+						bad = "element " + em[1] + " is not a base"
+						continue
+					}
+					if _, dup := named[idx]; dup {
+						bad = fmt.Sprintf("number %d occurs twice", idx)
+					}
+					named[idx] = strings.TrimSpace(em[3])
+				}
+				if fmt.Sprint(len(named)) != bm[1] && bad == "" {
+					bad = "num attribute " + bm[1] + " does not match"
+				}
+			}
+			for i := range k.R {
+				if v, ok := named[i]; !ok {
+					bad = fmt.Sprintf("number %d missing", i)
+				} else if bad == "" && (k.R[i] == nil || k.R[i].String() != v) {
+					bad = fmt.Sprintf("R[%d] is not what the element Base_%d says", i, i)
+				}
+			}
+			if len(named) != len(k.R) && bad == "" {
+				bad = fmt.Sprintf("%d base elements, %d bases", len(named), len(k.R))
+			}
+			if bad != "" {
+				r.Violate("C18:base-list-read-differs-from-document", det, "%s: accepted although %s", id, bad)
+			}
 		}
 		// whatever is accepted must be exactly what the document says
 		for _, em := range elemRe.FindAllStringSubmatch(m.text, -1) {
@@ -378,6 +467,12 @@ func c18BitRot(r *kernel.Run, s C18Spec, sk *gabikeys.PrivateKey, pk *gabikeys.P
 			if !demo {
 				if k.Validate() != nil {
 					r.Violate("C18:inconsistent-private-key-accepted", det, "%s: accepted outside demo mode although Validate() fails", id)
+				}
+				if k.P.Cmp(k.Q) == 0 {
+					r.Violate("C18:inconsistent-private-key-accepted", det, "%s: accepted outside demo mode with p = q", id)
+				}
+				if _, ok := gabikeys.DefaultSystemParameters[new(big.Int).Mul(k.P, k.Q).BitLen()]; !ok {
+					r.Violate("C18:unsupported-modulus-accepted", det, "%s: private key with a modulus of %d bits accepted outside demo mode", id, new(big.Int).Mul(k.P, k.Q).BitLen())
 				}
 			}
 		}
@@ -645,12 +740,16 @@ func c18ShadowBubble(r *kernel.Run, s C18Spec) {
 		mustUnmarshal(sess.Wire, &pl)
 		re := mustJSON(pl)
 		v2 := verifyWire(re, sess.Sess)
-		if !v1.Accepted || !v2.Accepted {
-			det := map[string]any{"variant": variant}
-			if v1.Ambiguous || v2.Ambiguous {
-				det["small_hidden_responses"] = ">=2"
-			}
+		det := map[string]any{"variant": variant}
+		switch {
+		case v1.Accepted != v2.Accepted:
 			r.Violate("C18:proof-list-verdict-changes-over-round-trip", det, "variant %d: verdicts %v / %v", variant, v1.Accepted, v2.Accepted)
+		case !v1.Accepted && (v1.Ambiguous || v2.Ambiguous):
+			// rejected before and after the round trip alike: the round trip preserved the meaning. (The
+			// rejection itself is the ambiguous revocation index, judged by C11 and recorded there.)
+			r.Probe("honest-list-rejected-both-ways(judged by C11)")
+		case !v1.Accepted:
+			r.Violate("C18:honest-proof-list-rejected", det, "variant %d: the honest list is rejected before and after the round trip", variant)
 		}
 		if string(re) != string(sess.Wire) {
 			r.Violate("C18:proof-list-reencoding-differs", map[string]any{"variant": variant}, "variant %d: decode+encode is not the identity", variant)
